@@ -27,7 +27,6 @@ pub struct Case {
     pub contradiction: Option<(usize, usize, usize, Contradiction)>,
 }
 
-pub const DROP_PANIC_TOLERATED: &str = "RowWriter dropped mid-row after a refused write (outside every listed property)";
 
 fn program_nontrivial(p: &Program) -> bool {
     let units = expected_units(p);
@@ -147,7 +146,7 @@ impl Prop for C03 {
     fn assumptions(&self) -> Vec<String> {
         vec![
             "replies the library makes itself (PING, FIELD_LIST, SELECT @@) are only required to be one conformant reply of a legal kind".into(),
-            "dropping a fresh QueryResultWriter/StatementMetaWriter unused, or a RowWriter mid-row, is documented misuse and not generated; a panic from RowWriter::drop after a refused write was propagated with `?` is tolerated and counted".into(),
+            "dropping a fresh QueryResultWriter/StatementMetaWriter unused, or a RowWriter mid-row, is documented misuse and not generated; after a refused row-level write the harness shim leaks the RowWriter instead of dropping it mid-row".into(),
         ]
     }
     fn cases(&self, tier: Tier) -> u64 {
@@ -160,6 +159,7 @@ impl Prop for C03 {
         let opts = ConvOpts { max_cmds: 8, max_rows: 6, sentinels: true, default_init_sometimes: true, quit_sometimes: true };
         let mut conv = gen_conv(g, &opts);
         let contradiction = if g.chance(1, 5) { make_contradiction(g, &mut conv) } else { None };
+        conv.forget_on_refusal = contradiction.is_some();
         let (bytes, ends, _) = client_stream(&conv);
         conv.sched = gen_schedule(g, bytes.len(), &ends);
         Case { conv, contradiction }
@@ -228,16 +228,10 @@ impl Prop for C03 {
                     ex.fail("c03-malformed-after-contradiction", format!("flushed output is malformed: {}", p));
                 }
             }
-            match &o.result {
-                RunResult::Panic(p) => {
-                    let sig = panic_signature(p);
-                    if sig.contains("finish_inner(true).unwrap()") {
-                        ex.note(DROP_PANIC_TOLERATED);
-                    } else if refused {
-                        ex.fail(format!("c03-panic|{}", sig), format!("unexpected panic after a refused write: {}", o.result.brief()));
-                    }
-                }
-                _ => {}
+            if let RunResult::Panic(p) = &o.result {
+                ex.fail(format!("c03-panic|{}", panic_signature(p)), format!("panic on a shape-contradicting row: {}", o.result.brief()));
+            } else if !o.result.is_err() {
+                ex.fail("c03-contradiction-result", format!("the shim propagated the refusal but run_on returned {}", o.result.brief()));
             }
             return ex;
         }
